@@ -49,12 +49,12 @@ Record inp := mkInp {
   i_claims : bool          (* the request carries a `claims` request parameter *)
 }.
 
-Inductive place := RpInit | Par | AuthzParse | AuthzProcess | TokenEp | UserinfoEp.
+Inductive place := RpInit | Par | AuthzParse | AuthzProcess | RpFinalize | TokenEp | UserinfoEp.
 Inductive outcome := Completed | FailAt (p : place).
 
 Definition place_eqb (a b : place) : bool :=
   match a, b with
-  | RpInit, RpInit | Par, Par | AuthzParse, AuthzParse | AuthzProcess, AuthzProcess
+  | RpInit, RpInit | Par, Par | AuthzParse, AuthzParse | AuthzProcess, AuthzProcess | RpFinalize, RpFinalize
   | TokenEp, TokenEp | UserinfoEp, UserinfoEp => true
   | _, _ => false
   end.
@@ -83,9 +83,15 @@ Definition registered1 (pref adv : list pystr) : option pystr := hd_error (negot
 (* what the provider info says: the configured list, or - when the configuration is silent - the merge of the
    endpoints' `_supports`, in which the LAST endpoint wins (EndpointContext.supports: res.update per
    endpoint); the pushed-authorization endpoint is configured after the authorization endpoint. *)
+(* The response-type dimension: every response type BOTH halves can be configured with - what the relying
+   party's response-mode table / callback construction / get_access_and_id_token know, and
+   create_authn_response handles on a real provider (both probed by the generator).  The `_supports`
+   defaults (rp_response_types, op_response_types) are a subset. *)
+Definition cfg_response_types : list pystr :=
+  filter (fun t => str_in t op_configurable_response_types) rp_configurable_response_types.
 Definition op_adv_rts (explicit : bool) : list pystr :=
-  if explicit then op_response_types else op_par_response_types.
-Definition rp_pref_rts (rt : pystr) (all : bool) : list pystr := if all then rp_response_types else [rt].
+  if explicit then cfg_response_types else op_par_response_types.
+Definition rp_pref_rts (rt : pystr) (all : bool) : list pystr := if all then cfg_response_types else [rt].
 Definition rp_use_rts (rt : pystr) (all explicit : bool) : list pystr :=
   negotiate (rp_pref_rts rt all) (op_adv_rts explicit).
 Definition rp_use_modes : list pystr := negotiate rp_response_modes op_response_modes.
@@ -199,8 +205,15 @@ Definition effective_auth (auth : pystr) : pystr :=
 Definition endpoint_auth_ok (endpoint : pystr) (allowed : list pystr) (m : pystr) : bool :=
   str_in m rp_client_authn_methods && str_in m op_client_authn_methods && str_in m allowed
   && (negb (is_jwt_method m) || aud_ok endpoint).
+(* the relying party goes to the token endpoint exactly when get_access_and_id_token takes something from the
+   token response (for "code token" and "code id_token token" it keeps what the authorization response carried) *)
+Definition uses_token_endpoint (rt : pystr) : bool :=
+  match assoc rt rp_artefact_sources with
+  | Some (SrcToken, _) | Some (_, SrcToken) => true
+  | _ => false
+  end.
 Definition token_auth_ok (rt auth : pystr) : bool :=
-  negb (has_word "code" rt) || endpoint_auth_ok (PS "token") op_token_auth_methods (effective_auth auth).
+  negb (uses_token_endpoint rt) || endpoint_auth_ok (PS "token") op_token_auth_methods (effective_auth auth).
 (* the harness configures the PAR add-on with the token-endpoint method when that is one of the secret / JWT
    methods and with client_secret_basic otherwise; the PAR endpoint allows the same four methods *)
 Definition par_auth (auth : pystr) : pystr :=
@@ -241,7 +254,21 @@ Definition idt_alg (sig : pystr) : pystr :=
 Definition idt_authz_ok (rt sig : pystr) : bool :=
   negb (has_word "id_token" rt) || sign_key_ok (idt_alg sig).
 Definition idt_token_ok (rt sig : pystr) : bool :=
-  negb (has_word "code" rt) || sign_key_ok (idt_alg sig).
+  negb (uses_token_endpoint rt) || sign_key_ok (idt_alg sig).
+
+(* the relying party checks the hashes of what arrives TOGETHER with an ID Token in the authorization response
+   (oidc.AuthorizationResponse.verify -> verify_id_token(check_hash=True)); the provider decides in
+   create_authn_response which of code / access_token it hands to the ID Token factory *)
+Definition artefacts_op (rt : pystr) : list pystr :=
+  match assoc rt op_artefacts with Some l => l | None => [] end.
+Definition idt_hashes_required (rt : pystr) : list pystr :=
+  if str_in (PS "id_token") (artefacts_op rt) then
+    flat_map (fun a => match assoc a rp_idt_required_hash with Some h => [h] | None => [] end) (artefacts_op rt)
+  else [].
+Definition idt_hashes_provided (rt : pystr) : list pystr :=
+  match assoc rt op_idt_hashes with Some l => l | None => [] end.
+Definition idt_hashes_ok (rt : pystr) : bool :=
+  forallb (fun h => str_in h (idt_hashes_provided rt)) (idt_hashes_required rt).
 
 (* the relying party calls userinfo when it holds an access token *)
 Definition needs_userinfo (rt : pystr) : bool :=
@@ -287,6 +314,7 @@ Definition checks (c : cfg) (i : inp) : list (place * bool) :=
     (AuthzProcess, par_claims_ok (c_tr c) (i_claims i));
     (AuthzProcess, idt_authz_ok (c_rt c) (c_idt_sig c));
     (AuthzProcess, op_mode_ok (c_rt c) (c_rm c));
+    (RpFinalize, idt_hashes_ok (c_rt c));
     (TokenEp, token_auth_ok (c_rt c) (c_auth c));
     (TokenEp, idt_token_ok (c_rt c) (c_idt_sig c));
     (UserinfoEp, ui_sig_ok (c_rt c) (c_ui_sig c));
@@ -316,7 +344,10 @@ Definition lim_shadow (rt : pystr) (explicit : bool) : bool :=
 (* HMAC-signed ID Tokens / userinfo: advertised by both halves, but the provider has no symmetric key of its own *)
 Definition is_oct_sig (a : pystr) : bool :=
   match assoc a sig_alg_family with Some KOct => true | _ => false end.
-Definition lim_hs_idt (sig : pystr) : bool := is_oct_sig sig.
+(* ... whenever an ID Token is minted at all: at the authorization endpoint (id_token in the response type) or at
+   the token endpoint (the relying party redeems the code) *)
+Definition lim_hs_idt (rt sig : pystr) : bool :=
+  is_oct_sig sig && (has_word "id_token" rt || uses_token_endpoint rt).
 Definition lim_hs_ui (rt : pystr) (sig : option pystr) : bool :=
   needs_userinfo rt && match sig with Some a => is_oct_sig a | None => false end.
 (* AES key wrap of userinfo with a client secret that is not 16, 24 or 32 bytes long *)
@@ -341,7 +372,7 @@ Definition lim_par_claims (tr : transport) (claims : bool) : bool :=
 
 Definition limits (c : cfg) (i : inp) : bool :=
   lim_mode (c_rt c) (c_rm c) || lim_shadow (c_rt c) (i_op_explicit i)
-  || lim_hs_idt (c_idt_sig c) || lim_hs_ui (c_rt c) (c_ui_sig c)
+  || lim_hs_idt (c_rt c) (c_idt_sig c) || lim_hs_ui (c_rt c) (c_ui_sig c)
   || lim_kw_secret (c_rt c) (c_ui_enc c) (i_secret_len i)
   || lim_byref_nonce (c_tr c) (c_rt c) || lim_byref_consent (c_tr c) (i_offline i)
   || lim_par_jwt (c_tr c) (c_auth c) || lim_par_claims (c_tr c) (i_claims i).
@@ -354,7 +385,7 @@ Definition in_opt2 (o : option (pystr * pystr)) (la le : list pystr) : Prop :=
 (* every value the RELYING PARTY can be configured with, dimension by dimension (booleans and the transport
    range over their whole type) *)
 Definition in_product (c : cfg) : Prop :=
-  In (c_rt c) rp_response_types /\ in_opt (c_rm c) rp_response_modes
+  In (c_rt c) cfg_response_types /\ in_opt (c_rm c) rp_response_modes
   /\ In (c_auth c) rp_token_auth_methods
   /\ In (c_idt_sig c) rp_idt_sig_algs /\ in_opt2 (c_idt_enc c) rp_idt_enc_algs rp_idt_enc_encs
   /\ in_opt (c_ui_sig c) rp_ui_sig_algs /\ in_opt2 (c_ui_enc c) rp_ui_enc_algs rp_ui_enc_encs
@@ -370,7 +401,7 @@ Definition all_dims : list dim :=
    DReqObjSig; DPkce].
 Definition rp_offers (d : dim) : list pystr :=
   match d with
-  | DResponseType => rp_response_types | DResponseMode => rp_response_modes
+  | DResponseType => cfg_response_types | DResponseMode => rp_response_modes
   | DTokenAuth => rp_token_auth_methods
   | DIdtSig => rp_idt_sig_algs | DIdtEncAlg => rp_idt_enc_algs | DIdtEncEnc => rp_idt_enc_encs
   | DUiSig => rp_ui_sig_algs | DUiEncAlg => rp_ui_enc_algs | DUiEncEnc => rp_ui_enc_encs
@@ -379,7 +410,7 @@ Definition rp_offers (d : dim) : list pystr :=
 (* what the provider advertises for the dimension (with response types stated explicitly) *)
 Definition op_advertises (d : dim) : list pystr :=
   match d with
-  | DResponseType => op_response_types | DResponseMode => op_response_modes
+  | DResponseType => op_configurable_response_types | DResponseMode => op_response_modes
   | DTokenAuth => op_token_auth_methods
   | DIdtSig => op_idt_sig_algs | DIdtEncAlg => op_idt_enc_algs | DIdtEncEnc => op_idt_enc_encs
   | DUiSig => op_ui_sig_algs | DUiEncAlg => op_ui_enc_algs | DUiEncEnc => op_ui_enc_encs
@@ -402,8 +433,6 @@ Definition negotiated (d : dim) (v : pystr) : pystr :=
 Definition dim_compatible (d : dim) : bool := forallb (fun v => op_accepts d (negotiated d v)) (rp_offers d).
 
 (* ------------------------------------------------------------------ artefacts per response type *)
-Definition artefacts_op (rt : pystr) : list pystr :=
-  match assoc rt op_artefacts with Some l => l | None => [] end.
 Definition artefacts_rp (rt : pystr) : list pystr :=       (* what the RP reads from the authorization response *)
   match assoc rt rp_artefact_sources with
   | Some (a, i) =>
@@ -416,7 +445,9 @@ Definition yields_id_token (rt : pystr) : bool :=
   match assoc rt rp_artefact_sources with Some (_, SrcNone) | None => false | Some _ => true end.
 Definition artefacts_agree (rt : pystr) : bool :=
   is_some (assoc rt rp_artefact_sources) && is_some (assoc rt op_artefacts)
-  && forallb (fun a => str_in a (artefacts_op rt)) (artefacts_rp rt) && yields_id_token rt.
+  && forallb (fun a => str_in a (artefacts_op rt)) (artefacts_rp rt) && idt_hashes_ok rt
+  (* an ID Token reaches the relying party exactly when the response type names one or the code is redeemed *)
+  && Bool.eqb (yields_id_token rt) (has_word "id_token" rt || uses_token_endpoint rt).
 
 (* ------------------------------------------------------------------ views of one completed flow *)
 (* One record is created at the authorization endpoint; every observation point shows a projection of it. *)
@@ -431,13 +462,15 @@ Record view := mkView {
 }.
 (* the provider's session database.  The ID Token minted by the TOKEN endpoint is recorded with its expiry; the
    one minted by the AUTHORIZATION endpoint (Authorization.mint_token: no usage rule for id_token) keeps
-   expires_at = 0 although the token itself says now + lifetime.  A flow without an access token records no
-   access-token expiry. *)
-Definition view_session (has_token : bool) (s : session) : view :=
+   expires_at = 0 although the token itself says now + lifetime.  at / idt say where the relying party's access
+   token and ID Token come from (rp_artefact_sources): SrcNone = the flow has none. *)
+Definition has_src (x : src) : bool := match x with SrcNone => false | _ => true end.
+Definition view_session (asrc isrc : src) (s : session) : view :=
   mkView (Some (s_client s)) (Some (s_sub s)) (Some (s_scope s)) (s_nonce s)
-         (if has_token then Some (s_at_exp s) else None)
-         (Some (if has_token then s_idt_exp s else 0%Z)).
-(* token response: scope and expires_in = expires_at - now; the view's expiry is now + expires_in *)
+         (if has_src asrc then Some (s_at_exp s) else None)
+         (match isrc with SrcToken => Some (s_idt_exp s) | SrcAuthz => Some 0%Z | SrcNone => None end).
+(* the response that carries the access token (token response, or the authorization response of the implicit /
+   hybrid types): scope and expires_in = expires_at - now; the view's expiry is now + expires_in *)
 Definition expires_in (s : session) (now_op : Z) : Z := (s_at_exp s - now_op)%Z.
 Definition view_token_response (s : session) (now_op : Z) : view :=
   mkView None None (Some (s_scope s)) None (Some (now_op + expires_in s now_op)%Z) None.
@@ -449,11 +482,13 @@ Definition view_userinfo (s : session) : view :=
   mkView None (Some (s_sub s)) None None None None.
 Definition view_id_token (s : session) : view :=
   mkView (Some (s_client s)) (Some (s_sub s)) None (s_nonce s) None (Some (s_idt_exp s)).
-(* the relying party: its own client id, the subject and nonce of the verified ID Token, the scope of the
-   token response, and __expires_at = ITS clock + expires_in *)
-Definition view_rp (has_token : bool) (s : session) (now_op now_rp : Z) : view :=
+(* the relying party: its own client id, the subject of the verified ID Token (or of userinfo), the nonce it
+   sent, the scope of the response that carried the access token (or of the authorization response), and
+   __expires_at = ITS clock + expires_in *)
+Definition view_rp (asrc isrc : src) (s : session) (now_op now_rp : Z) : view :=
   mkView (Some (s_client s)) (Some (s_sub s)) (Some (s_scope s)) (s_nonce s)
-         (if has_token then Some (now_rp + expires_in s now_op)%Z else None) (Some (s_idt_exp s)).
+         (if has_src asrc then Some (now_rp + expires_in s now_op)%Z else None)
+         (if has_src isrc then Some (s_idt_exp s) else None).
 
 Definition opt_agree {A} (eqb : A -> A -> bool) (x y : option A) : bool :=
   match x, y with Some a, Some b => eqb a b | _, _ => true end.
@@ -466,11 +501,11 @@ Fixpoint all_agree (l : list view) : bool :=
   | [] => true
   | v :: r => forallb (view_agree v) r && all_agree r
   end.
-Definition all_views (has_token at_jwt : bool) (s : session) (now_op now_rp : Z) : list view :=
-  if has_token then
-    [view_session true s; view_token_response s now_op; view_introspection s; view_userinfo s; view_id_token s;
-     view_rp true s now_op now_rp] ++ (if at_jwt then [view_jwt_access_token s] else [])
-  else [view_session false s; view_id_token s; view_rp false s now_op now_rp].
+Definition all_views (asrc isrc : src) (at_jwt : bool) (s : session) (now_op now_rp : Z) : list view :=
+  [view_session asrc isrc s; view_rp asrc isrc s now_op now_rp]
+  ++ (if has_src isrc then [view_id_token s] else [])
+  ++ (if has_src asrc then [view_token_response s now_op; view_introspection s; view_userinfo s] else [])
+  ++ (if has_src asrc && at_jwt then [view_jwt_access_token s] else []).
 Definition forget_idt_exp (v : view) : view :=
   mkView (v_client v) (v_sub v) (v_scope v) (v_nonce v) (v_at_exp v) None.
 
@@ -489,27 +524,28 @@ Definition diag_flow (k : cfg * inp * outcome) : outcome * list (place * bool) :
 (* the views of a completed flow: the session record as the provider holds it, the two clocks, and every
    observed view, each compared with the model's projection *)
 Record views_case := mkViewsCase {
-  k_has_token : bool; k_at_jwt : bool; k_session : session; k_now_op : Z; k_now_rp : Z;
+  k_at : src; k_idt : src; k_at_jwt : bool; k_session : session; k_now_op : Z; k_now_rp : Z;
   k_op_session : view;
-  k_token_response : option view; k_introspection : option view; k_userinfo : option view; k_id_token : view;
+  k_token_response : option view; k_introspection : option view; k_userinfo : option view; k_id_token : option view;
   k_rp : view; k_jwt : option view
 }.
 Definition diag_views (k : views_case) : list (string * view) :=
   let s := k_session k in
-  [("op_session", view_session (k_has_token k) s); ("token_response", view_token_response s (k_now_op k));
+  [("op_session", view_session (k_at k) (k_idt k) s); ("token_response", view_token_response s (k_now_op k));
    ("introspection", view_introspection s); ("userinfo", view_userinfo s); ("id_token", view_id_token s);
-   ("rp", view_rp (k_has_token k) s (k_now_op k) (k_now_rp k)); ("jwt", view_jwt_access_token s)].
+   ("rp", view_rp (k_at k) (k_idt k) s (k_now_op k) (k_now_rp k)); ("jwt", view_jwt_access_token s)].
+(* present exactly when expected, and then equal to the model's projection *)
+Definition exp_view_eqb (expected : bool) (m : view) (o : option view) : bool :=
+  match o with Some v => expected && view_eqb m v | None => negb expected end.
 Definition opt_view_eqb (m : view) (o : option view) : bool :=
   match o with Some v => view_eqb m v | None => true end.
 Definition chk_views (k : views_case) : bool :=
   let s := k_session k in
-  view_eqb (view_session (k_has_token k) s) (k_op_session k) &&
-  (if k_has_token k then
-     match k_token_response k with Some v => view_eqb (view_token_response s (k_now_op k)) v | None => false end
-   else match k_token_response k with None => true | Some _ => false end)
-  && opt_view_eqb (view_introspection s) (k_introspection k)
-  && opt_view_eqb (view_userinfo s) (k_userinfo k)
-  && view_eqb (view_id_token s) (k_id_token k)
-  && view_eqb (view_rp (k_has_token k) s (k_now_op k) (k_now_rp k)) (k_rp k)
-  && (if k_has_token k && k_at_jwt k then match k_jwt k with Some v => view_eqb (view_jwt_access_token s) v | None => false end
-      else match k_jwt k with None => true | Some _ => false end).
+  let asrc := has_src (k_at k) in
+  view_eqb (view_session (k_at k) (k_idt k) s) (k_op_session k)
+  && exp_view_eqb asrc (view_token_response s (k_now_op k)) (k_token_response k)
+  && (if asrc then opt_view_eqb (view_introspection s) (k_introspection k) else negb (is_some (k_introspection k)))
+  && exp_view_eqb asrc (view_userinfo s) (k_userinfo k)
+  && exp_view_eqb (has_src (k_idt k)) (view_id_token s) (k_id_token k)
+  && view_eqb (view_rp (k_at k) (k_idt k) s (k_now_op k) (k_now_rp k)) (k_rp k)
+  && exp_view_eqb (asrc && k_at_jwt k) (view_jwt_access_token s) (k_jwt k).
